@@ -22,6 +22,41 @@ f"#;
         println!("good call g 3 -> {:?}", g.call(3));
         if !matches!(r, Ok(102)) { std::process::exit(4); }
     }
+    if which == "dce" {
+        let progs = [
+            ("proj-call", r#"let m = { f = \x -> error "boom" } in let _ = m.f 1 in 2"#),
+            ("lambda-call", r#"let _ = (\x -> error "boom") 1 in 2"#),
+            ("ident-call", r#"let f x = error "boom" in let _ = f 1 in 2"#),
+        ];
+        let mut bad = false;
+        for (name, src) in progs.iter() {
+            let mut outs = vec![];
+            for opt in [false, true] {
+                let vm = new_vm();
+                vm.get_database_mut().set_optimize(opt);
+                let r = vm.run_expr::<i32>(name, src).map(|x| x.0).map_err(|e| e.to_string().lines().next().unwrap_or("").to_string());
+                outs.push(format!("{:?}", r));
+            }
+            println!("{}: unoptimised {} | optimised {}", name, outs[0], outs[1]);
+            if outs[0] != outs[1] { bad = true; }
+        }
+        if bad { std::process::exit(5); }
+    }
+    if which == "primop" {
+        let progs = ["'a' #Char+ 'b'", "\"a\" #String+ \"b\"", "'a' #Char< 'b'", "1 #Int+ 2", "\"a\" #String== \"b\""];
+        let mut bad = false;
+        for src in progs.iter() {
+            let vm = new_vm();
+            let tc = vm.typecheck_str("t", src, None).map(|(_, t)| t.to_string()).map_err(|e| e.to_string().lines().next().unwrap_or("").to_string());
+            let r = std::panic::catch_unwind(std::panic::AssertUnwindSafe(|| {
+                vm.run_expr::<OpaqueValue<RootedThread, Hole>>("t", src).map(|_| ()).map_err(|e| e.to_string().lines().next().unwrap_or("").to_string())
+            }));
+            let out = match r { Ok(x) => format!("{:?}", x), Err(_) => { "HOST PANIC".to_string() } };
+            if tc.is_ok() && out == "HOST PANIC" { bad = true; }
+            println!("{:24} typecheck: {:?}   run: {}", src, tc, out);
+        }
+        if bad { std::process::exit(6); }
+    }
     if which == "lazy" {
         let src = r#"let { lazy } = import! std.lazy in lazy (\_ -> error "fail")"#;
         let (l, _) = vm.run_expr::<OpaqueValue<RootedThread, Hole>>("t", src).unwrap(); let l: L = unsafe { std::mem::transmute(l) };
